@@ -1,5 +1,5 @@
 import LcModel.Prove.LemmasC04
-import LcModel.Sync.LemmasC04
+import LcModel.Sync.LemmasFork
 import LcModel.Index.LemmasC04
 /-!
 # C04 — after a fork switch the index reflects only the new chain
@@ -305,6 +305,18 @@ theorem fork_unindexes (p : P) (f : Nat) (s n b : Nat) (hs : (s, n) ∈ p.script
   simp only [ge_iff_le, Bool.not_eq_eq_eq_not, Bool.not_true, Bool.and_eq_false_imp,
     decide_eq_true_eq, List.any_eq_false, Bool.and_eq_true, not_and] at hc
   exact hc hb (s, n) hs rfl (by simp only; omega)
+
+/-- **resuming on the new chain**: the store after the fork handling satisfies, for the NEW chain
+(which shares the blocks up to the fork point with the old one), the invariant from which
+continued syncing indexes every touching block (`C08.converges_after_forks`): no block at or
+below the fork point is forgotten, none above it is claimed, pending, or skipped by the filter
+sync -/
+theorem fork_resumes_on_new_chain (touches touches' : Nat → Nat → Bool) (g : G) (f : Nat)
+    (hi : Inv touches g) (hns : NoSpan g.p f) (hnc : NoClaimInRetained g.p g.lo f)
+    (hag : Agree f touches touches') :
+    Inv touches' ⟨afterFork g.p f, g.lo⟩ := by
+  obtain ⟨p, lo⟩ := g
+  exact inv_fork hi hns hnc hag
 
 end records
 
